@@ -56,6 +56,10 @@ def perform(cname, x, call, nid, pool=None):
             r = x[slice(_n(call["st"]), _n(call["sp"]), _n(call["sk"]))]
         elif op == "iter":
             r = [y for y in x]
+        elif op == "iter2":
+            r = [z for a in x for b in x for z in (a, b)]
+        elif op == "iterzip":
+            r = [z for a, b in zip(x, x) for z in (a, b)]
         elif op == "len":
             r = len(x)
         elif op == "copy":
@@ -185,6 +189,10 @@ def ref_apply(pre, call, nid):
             return xs, ("obj", xs[slice(_n(call["st"]), _n(call["sp"]), _n(call["sk"]))])
         if op == "iter":
             return xs, ("objs", list(xs))
+        if op == "iter2":
+            return xs, ("objs", [z for a in xs for b in xs for z in (a, b)])
+        if op == "iterzip":
+            return xs, ("objs", [z for a, b in zip(xs, xs) for z in (a, b)])
         if op == "len":
             return xs, ("int", len(xs))
         if op == "copy":
@@ -363,7 +371,7 @@ def run(tier):
     if len(edges) < 20000:
         raise MachineryError("edge export too small: %d" % len(edges))
     ops_seen = {e["call"]["op"] for e in edges}
-    need = {"getitem", "slice", "iter", "len", "copy", "append", "extend", "extend_wrong", "insert",
+    need = {"getitem", "slice", "iter", "iter2", "iterzip", "len", "copy", "append", "extend", "extend_wrong", "insert",
             "pop", "pop0", "del", "setitem", "reverse", "clear"}
     if need - ops_seen:
         raise MachineryError("vacuity: operations never taken by the model: %s" % (need - ops_seen))
